@@ -113,6 +113,13 @@ def run(chk):
     if gl.startswith("error"):
         chk.violation("translator", "the limit tests of the source can no longer be cut out: " + gl,
                       {"generated": st, "how": "lib/genlimits.py over VERIF_REPO"}, found_input=False)
+        # the failing-input search still runs, over the last good generated model (Gen.ref): a concrete input found below
+        # is what gets reported, with this message attached
+        lock = vlib.coq_lock()
+        try:
+            shutil.copy2(os.path.join(vlib.COQ, "Gen.ref", "GenLimits.v"), os.path.join(vlib.COQ, "gen", "GenLimits.v"))
+        finally:
+            lock.close()
     elif not ok:
         diff = ""
         try:
@@ -1107,6 +1114,57 @@ def _run(chk, K, h, model, quick, hasan=None):
         asan_run.add(cid, cmds, post)
     truns.append(asan_run)
 
+    # ---- the VM's deadline test and the instruction that follows it: the test fires on the 100th, 200th, ... instruction, so which
+    # instruction comes next depends on the length of the loop in VM instructions and on how many instructions the preceding
+    # rules contribute.  P padding rules (3 or 4 instructions each) in front of one endless loop rule of several shapes (plain:
+    # 10 instructions per iteration; `matches` in the body; a module call in the body; nested) and a last rule `always`:
+    # every variant must return ERROR_SCAN_TIMEOUT within the bound -- never run on, never return ERROR_SUCCESS.
+    NBIG = 1 << 40
+    SHAPES = [
+        ("plain", "", "for all i in (0..%d) : ( true )" % NBIG),
+        ("matches", "", 'for all i in (0..%d) : ( "abcabc" matches /abc/ and i >= 0 )' % NBIG),
+        ("matches2", "", 'for all i in (0..%d) : ( "abcabc" matches /a.c/ and i >= 0 and i + 1 > 0 and "xyz" matches /y/ )' % NBIG),
+        ("call", 'import "math" ', "for all i in (0..%d) : ( math.abs(i) >= 0 )" % NBIG),
+    ]
+    if not quick:
+        SHAPES += [("nested", "", "for all i in (0..%d) : ( for all j in (0..%d) : ( i + j >= 0 ) )" % (NBIG, NBIG)),
+                   ("call2", 'import "math" ', "for all i in (0..%d) : ( math.max(i, 3) >= 0 and math.to_number(true) == 1 )" % NBIG),
+                   ("strset", "", "for all i in (0..%d) : ( for any s in (\"a\", \"b\") : ( s == \"b\" ) )" % NBIG)]
+    pruns = []
+    for sname, imp, loop in SHAPES:
+        for P in range(25 if quick else 50):
+            pads = "".join("rule p%d { condition: %s } " % (k_, "true" if (k_ % 4) else "not true") for k_ in range(P))
+            src = imp + pads + "rule L { condition: %s } rule always { condition: true }" % loop
+            api = "scanner" if P % 2 else "rules"
+            cid = "t_phase_%s_p%d" % (sname, P)
+            cmds = ["newcompiler", "add " + R(src), "getrules", "buf " + R("0123456789")]
+            cmds += (["scanner", "stimeout 1", "sscan 0 0"] if api == "scanner" else ["scan 1 0 0"]) + ["destroy", "smoke"]
+            r_ = Runner(h, alarm=6)
+
+            def post(lines, ans, cid=cid, cmds=cmds, sname=sname, P=P, api=api):
+                count("phase", (sname, P))
+                c = crashed(lines)
+                sc = scans(lines)
+                if c and "sig=14" in c and not sc:
+                    viol("deadline:phase", "%s: an endless `%s` loop after %d padding rules, timeout 1 s (%s API): still running 6 s later -- the scan never times out"
+                         % (cid, sname, P, api), cid, cmds[:-2], lines, padding_rules=P, shape=sname)
+                    return
+                if not usable(cid, cmds, lines, "phase"):
+                    return
+                rc = sc[0].get("rc") if sc else None
+                if rc == 0:
+                    viol("deadline:phase", "%s: an endless `%s` loop after %d padding rules, timeout 1 s (%s API): the scan returns ERROR_SUCCESS after %s ms "
+                         "(%d rules reported; the last rule `always` %s)" % (cid, sname, P, api, sc[0].get("ms"), len(sc[0]["rules"]),
+                                                                              "matches" if sc[0]["rules"].get("always", ("",))[0] == "M" else "is not reported as matching"),
+                         cid, cmds[:-2], lines, padding_rules=P, shape=sname)
+                elif rc != TO or not (980 <= sc[0]["ms"] <= 1600):
+                    viol("deadline:phase", "%s: an endless `%s` loop after %d padding rules, timeout 1 s (%s API): rc=%s after %s ms, expected ERROR_SCAN_TIMEOUT "
+                         "between 980 and 1600 ms" % (cid, sname, P, api, rc, sc[0].get("ms") if sc else None), cid, cmds[:-2], lines, padding_rules=P, shape=sname)
+                else:
+                    stats["agree"] += 1
+            r_.add(cid, cmds, post)
+            pruns.append(r_)
+
     threads = [threading.Thread(target=r.run) for r in truns]
     par = 8
     t0 = time.time()
@@ -1119,6 +1177,14 @@ def _run(chk, K, h, model, quick, hasan=None):
         for t in threads[i:i + par]:
             t.join()
     chk.note(harness_wall_s=round(time.time() - t0, 1))
+    tp0 = time.time()
+    pth = [threading.Thread(target=r.run) for r in pruns]
+    for i in range(0, len(pth), 16):
+        for t in pth[i:i + 16]:
+            t.start()
+        for t in pth[i:i + 16]:
+            t.join()
+    _t(chk, "phase_timeouts", tp0)
     tm = time.time()
 
     # ================================================================ model answers, then all comparisons
@@ -1133,7 +1199,7 @@ def _run(chk, K, h, model, quick, hasan=None):
         bad = [(q, a) for q, a in zip(mq, ans) if a.startswith(("unknown", "exception", "usage"))][:3]
         chk.violation("model", "model runner does not answer: %s" % bad, {"stderr": merr[-500:]}, found_input=False)
         return
-    for r in [main] + truns:
+    for r in [main] + truns + pruns:
         for cid, (cmds, post) in r.post.items():
             lines = r.out.get(cid)
             if lines is None:
